@@ -46,6 +46,47 @@ theorem runs_deterministic (m : Machine Tab σ Out) (sched₁ sched₂ : List Na
     (m.run sched₁ s₁).thr t = (m.run sched₂ s₂).thr u := by
   rw [run_thr, run_thr, htab, hin, hn]
 
+/-- Reordering a schedule changes nothing: two schedules that are permutations of each other
+(the same steps, interleaved differently) leave EVERY thread in the same state with the same
+output trace, and the same table. -/
+theorem reordering_invisible (m : Machine Tab σ Out) (sched₁ sched₂ : List Nat)
+    (hp : sched₁.Perm sched₂) (s : Sys Tab σ Out) :
+    (∀ t, (m.run sched₁ s).thr t = (m.run sched₂ s).thr t) ∧
+    (m.run sched₁ s).tab = (m.run sched₂ s).tab := by
+  refine ⟨fun t => ?_, ?_⟩
+  · rw [run_thr, run_thr, hp.count_eq]
+  · rw [run_tab, run_tab]
+
+/-- Output is only ever appended to: what a thread has emitted after `n` of its own steps is a
+prefix of what it has emitted after `n + k`, so (with `schedule_independent`) extending a
+schedule by any steps of any threads never retracts or rewrites an output already produced. -/
+theorem output_only_grows (m : Machine Tab σ Out) (tab : Tab) (n k : Nat) (t : Thread σ Out) :
+    (m.isolated tab n t).out <+: (m.isolated tab (n + k) t).out := by
+  induction n generalizing t with
+  | zero =>
+    simp only [Nat.zero_add, Machine.isolated]
+    induction k generalizing t with
+    | zero => exact List.prefix_refl _
+    | succ k ih =>
+      rw [isolated_succ]
+      refine List.IsPrefix.trans ?_ (ih _)
+      unfold Machine.stepThread
+      cases h : m.step tab t.st with
+      | mk s' o => cases o with
+        | none => exact List.prefix_refl _
+        | some o => exact List.prefix_append _ _
+  | succ n ih =>
+    rw [Nat.add_right_comm, isolated_succ, isolated_succ]
+    exact ih _
+
+/-- Extending a schedule: each thread's output after `sched ++ more` extends its output after
+`sched`. -/
+theorem extension_extends_output (m : Machine Tab σ Out) (sched more : List Nat)
+    (s : Sys Tab σ Out) (t : Nat) :
+    ((m.run sched s).thr t).out <+: ((m.run (sched ++ more) s).thr t).out := by
+  rw [run_thr, run_thr, List.count_append]
+  exact output_only_grows m s.tab _ _ _
+
 /-- Compilers are values: threads that compile (each with its own `Compiler` state, reading the
 shared definitions/natives `env`) and then run what they compiled, interleaved arbitrarily, end
 in the phase of the isolated compile-then-run; in particular the table a thread obtains does not
